@@ -3,6 +3,16 @@
 import json, subprocess
 
 CHECKS = {
+ "C09": dict(
+   technique="round-trip monitor with an independent codec and a denotation function: every literal the API accepts (parsed text or programmatic value, incl. corrupted and alternative forms) must encode exactly as the value it denotes",
+   text="Exploration: generated nested types (arrays/tuples/structs/enums over all primitive types), boundary-biased values; canonical text, alternative spellings (suffix-free numbers, trailing commas, permuted struct fields, repeat form), canonical and corrupted programmatic literals (permuted/duplicated/missing fields, wrong arity, out-of-range numbers, wrong tags, valid/inverted/overflowing/untyped ranges, repeat counts, wrong names) through parse_arg, literal_arg, Evaluator::set_literal, parse_output, Literal::parse/Display, set_<int>/TryFrom<EvalOutput>; identity circuit.",
+   note="Trusted: the harness codec (documented layout) and denotation function.",
+   design="DESIGN.md section 2 / C09"),
+ "C12": dict(
+   technique="differential runtime monitor: compile_with_constants vs. the literally substituted program (values computed by the harness in wrapping arithmetic of the constant's type), plus fault injection on the supplied constants",
+   text="Exploration: generated const declarations (external values, references to earlier consts, nested min/max/+/-; bool, unsigned, signed, usize incl. sizes 0 and 1, wrapping intermediates) used as operands, array sizes, repeat counts, loop trip counts, join sizes and number of parties; party sizes, output size and flag/reason/value on 256 random inputs per case; missing entry / missing party / mistyped literal / mixed faults with inspection of the returned error.",
+   note="The substituted program's own semantics are covered by C01; usize constants use 32-bit wrapping.",
+   design="DESIGN.md section 2 / C12"),
  "C08": dict(
    technique="reference-model runtime monitor: an independent pattern matcher decides exhaustiveness by evaluation over all values / one representative per boundary-induced region, and predicts the first matching arm and its bindings for every evaluated scrutinee value",
    text="Exploration: generated arm lists (literals, inclusive/exclusive ranges at MIN/MAX/0, tuples, structs with '..', enums, nesting, bindings, wildcards anywhere) over generated scrutinee types; checker verdict vs oracle verdict, reported missing cases vs oracle, compiled circuit (dedup on/off) vs first-match semantics on the representative values.",
